@@ -71,11 +71,11 @@ def mk_acts(name):
 
 NACT = {n: len(mk_acts(n)) for n in ACT_NAMES}
 
-CTX_KINDS = ['none', 'scalar', 'list']
+CTX_KINDS = ['none', 'absent', 'scalar', 'list']      # absent: the evaluator passes context=None also for a batch (environment without 'context')
 
 
 def mk_ctx(kind, c, r):
-    if kind == 'none': return None
+    if kind in ('none', 'absent'): return None
     if kind == 'scalar': return 10 * c + r            # 0 (falsy) for the first row of the first call
     return [10 * c + r, 2]
 
@@ -86,12 +86,14 @@ PROBS = [0.5, 1, 0.0]        # incl. a falsy stated probability
 def mk_pmf(K, j):
     """PMF number j over K actions (fresh list): the K one-hots (ints, as in coba's own examples), then mixed ones."""
     if j < K: return [1 if i == j else 0 for i in range(K)]
-    if K == 2: return [[0.5, 0.5], [0.25, 0.75]][j - K]
-    if K == 3: return [[0.25, 0.5, 0.25], [0.5, 0.25, 0.25]][j - K]
+    # the last ones have a float sum != 1.0 (0.9999 resp. 0.9999999999999999): accepted as PMFs, and p/sum(pmf) != p for every entry
+    if K == 1: return [[0.9999]][j - K]
+    if K == 2: return [[0.5, 0.5], [0.25, 0.75], [0.3333, 0.6666]][j - K]
+    if K == 3: return [[0.25, 0.5, 0.25], [0.01, 0.29, 0.7], [0.3333, 0.3333, 0.3333]][j - K]
     raise ValueError((K, j))
 
 
-def n_pmf(K): return 1 if K == 1 else K + 2
+def n_pmf(K): return 2 if K == 1 else K + 3
 
 
 def mk_kw(kwid, e):
@@ -130,7 +132,7 @@ def call_choices(fmt, call, full):
     to a learner that is a function of (context, actions), so they all get the same choice."""
     K, n = NACT[call['acts']], call['n']
     rc = row_choices(fmt, K)
-    if call['ctx'] == 'none' or n == 1:
+    if call['ctx'] in ('none', 'absent') or n == 1:
         return [[c] * n for c in rc]
     if not full:       # rotations: row r takes choice (r + shift) mod |choices|
         return [[rc[(r + s) % len(rc)] for r in range(n)] for s in range(len(rc))]
@@ -210,6 +212,7 @@ class ScriptedLearner:
         self.anomalies = []
         self.learn_calls = []
         self.n_predict = 0
+        self.row_calls = []          # contexts of the un-batched predict calls
 
     # -- containers
     def pair(self, x): return list(x) if self.box == 'l' else tuple(x)
@@ -241,9 +244,10 @@ class ScriptedLearner:
     def predict(self, context, actions):
         self.n_predict += 1
         if not (is_batch(context) or is_batch(actions)):
+            self.row_calls.append(context)
             return self._single(self._parts(context, actions))
         if self.mode == 'fb': raise NotBatchable('predict')
-        rows = [self._parts(x, a) for x, a in zip(context, actions)]
+        rows = [self._parts(x, a) for x, a in zip(context if context is not None else [None] * len(actions), actions)]
         if self.mode != 'col':
             return self.outer([self._single(p) for p in rows])
         KW = None if self.kwid == 0 else {k: [p['kw'][k] for p in rows] for k in rows[0]['kw']}
@@ -290,6 +294,9 @@ def where_raised(e):
 def is_seq(x): return isinstance(x, (list, tuple))
 
 
+ROWCALLS = 'learner that cannot batch is called '
+
+
 class Finding(Exception):
     def __init__(self, comp, mode, what, call=0):
         self.comp, self.mode, self.what, self.call = comp, mode, what, call
@@ -316,8 +323,12 @@ def judge_row(comp, base, ref_acts, choice, a, p, r, c):
         idx = [i for i, x in enumerate(ref_acts) if x == a and type(a) is not bool]
         if not idx:
             raise Finding(comp, 'action is not one of the offered actions', 'row %d: got %r, offered %r' % (r, a, ref_acts), c)
-        if pmf[idx[0]] == 0 or p != pmf[idx[0]] or isinstance(p, bool):
+        if pmf[idx[0]] == 0:
             raise Finding(comp, 'PMF answer: (action, probability) is not a draw from the row\'s PMF', 'row %d: pmf %r over %r gave (%r, %r)' % (r, pmf, ref_acts, a, p), c)
+        if isinstance(p, bool) or not isinstance(p, (int, float)) or p != pmf[idx[0]]:
+            near = isinstance(p, float) and abs(p - pmf[idx[0]]) < 1e-3
+            raise Finding(comp, 'PMF answer: reported probability is not %sthe PMF entry of the played action' % ('exactly ' if near else ''),
+                          'row %d: pmf %r over %r gave (%r, %r)' % (r, pmf, ref_acts, a, p), c)
         return idx[0]
     want = ref_acts[choice[0]]
     if not any(x == a for x in ref_acts) or type(a) is bool:
@@ -372,12 +383,13 @@ def execute(cfg, ch):
             n = len(rows)
             ref_acts = mk_acts(call['acts'])          # never handed to coba
             if batched:
-                context = Batch.List([mk_ctx(call['ctx'], c, r) for r in range(n)])
+                context = None if call['ctx'] == 'absent' else Batch.List([mk_ctx(call['ctx'], c, r) for r in range(n)])
                 actions = Batch.List([mk_acts(call['acts']) for r in range(n)])
                 reward = Batch.List([0.5 + r + 10 * c for r in range(n)])
             else:
                 context, actions, reward = mk_ctx(call['ctx'], c, 0), mk_acts(call['acts']), 0.5 + 10 * c
             # ---------------- predict
+            learner.row_calls.clear()
             try:
                 res = safe.predict(context, actions)
             except Exception as ex:   # noqa
@@ -392,6 +404,10 @@ def execute(cfg, ch):
                 out['rows'].append('undemanded:returns'); break
             if learner.anomalies:
                 raise Finding('SafeLearner.predict', 'learner is offered a (context, actions) pair the evaluator did not pass', learner.anomalies[0], c)
+            want_calls = [mk_ctx(call['ctx'], c, r) for r in range(n)]
+            if mode == 'fb' and not (len(learner.row_calls) == n and all(same_ctx(x, y) for x, y in zip(learner.row_calls, want_calls))):
+                how = 'more than once per row' if len(learner.row_calls) > n else 'for fewer rows than the batch has' if len(learner.row_calls) < n else 'in another order than the rows'
+                raise Finding('SafeLearner.predict', ROWCALLS + how, 'predict was called un-batched for contexts %r, the batch has contexts %r' % (learner.row_calls, want_calls), c)
             got = split_rows(res, n, batched)
             if isinstance(got, str):
                 raise Finding('SafeLearner.predict', 'result is not (action, probability, kwargs) with one entry per row', got + ' from %r' % (res,), c)
@@ -417,6 +433,7 @@ def execute(cfg, ch):
                 _, X, A, R, P, KW = lc[0]
                 try:
                     if P is None: P = [None] * n
+                    if X is None: X = [None] * n
                     seen = [(X[r], A[r], R[r], P[r], {k: KW[k][r] for k in KW}) for r in range(n)]
                     if not all(len(v) == n for v in (X, A, R, P)): raise IndexError('length')
                 except Exception as ex:   # noqa
@@ -465,7 +482,7 @@ def simpler_cfgs(cfg, fcall):
     for k in range(0, cfg['kw']):
         yield w(kw=k), fcall
     f = cfg['fmt']
-    if f[0] == 'h' and f != 'hPM': yield w(fmt=f[1:]), fcall
+    if f[0] == 'h': yield w(fmt=f[1:]), fcall
     b = base_of(f)
     for b2 in ['A', 'AP', 'PM'][:_ord(['A', 'AP', 'PM'], b)]:
         yield w(fmt=('h' if f[0] == 'h' else '') + b2), fcall
@@ -518,6 +535,8 @@ def minimise(cfg, ch, f):
 
 def key_of(cfg, f):
     c = cfg['calls'][f.call]
+    if f.mode.startswith(ROWCALLS):      # depends on the shape of the answer relative to the batch size (square), not on one of the features below
+        return '%s|%s|%s' % (f.comp, f.mode, 'first call' if f.call == 0 else 'call %d' % (f.call + 1))
     feats = ['format %s' % FMT_TEXT[cfg['fmt']], MODE_TEXT[cfg['mode']]]
     if cfg['mode'] != 'not': feats.append('%d row%s' % (c['n'], '' if c['n'] == 1 else 's'))
     feats.append(KW_TEXT[cfg['kw']])
@@ -609,6 +628,9 @@ def execute_eval(cfg, ch, exp_seed=None):
         if learner.anomalies:
             raise Finding(comp, 'learner is offered a (context, actions) pair that is not in the environment', learner.anomalies[0])
         flat = [(c, r, en) for c, rows in enumerate(plan) for r, en in enumerate(rows)]
+        if mode == 'fb' and (learn != 'off' or ev) and not (len(learner.row_calls) == len(flat) and all(same_ctx(x, en['ctx']) for x, (_, _, en) in zip(learner.row_calls, flat))):
+            raise Finding(comp, 'learner that cannot batch is not called exactly once per interaction, in order',
+                          'predict was called un-batched for contexts %r, the environment has %r' % (learner.row_calls, [en['ctx'] for _, _, en in flat]))
         if ev and len(res) != len(flat):
             raise Finding(comp, 'not one result row per interaction', '%d rows for %d interactions: %r' % (len(res), len(flat), res[:3]))
         # what the learner saw in learn, one tuple per interaction
@@ -794,10 +816,10 @@ class C15(Check):
             'list+string payload, and for batches 2- and 3-key payloads whose key insertion order differs between the rows) x (layout: un-batched, row-major batch, column-major batch, learner that refuses batches) x batch size '
             '1..2 (thorough 1..3, incl. size == number of actions) x 13 action sets (strings, one int, ints, 0/1, 0..2, floats 0.0/1.0, probability-like '
             'floats, one-hot tuples of 2 and 3, lists, sparse dicts with 1 and 2 features, 1-feature dense) x context kind {None, '
-            'scalar, list} x SafeLearner seed (PMF formats) x container types; plus two-call histories where the second call offers '
+            'scalar, list; for batches also context=None for the whole batch} x SafeLearner seed (PMF formats) x container types; plus two-call histories where the second call offers '
             'another action set (and another batch size), and three-call histories XXY / XYX / XYY over every ordered pair of 6 action sets with and without 0/1 (joint rotations of the answers); SafeLearner / evaluator seeds include 0 (and 0.0), contexts, kwargs values and stated probabilities include 0; plus the same answers for 3 interactions through the real SequentialCB (5 action sets, '
             'un-batched and batches of 2+1; learn in {on, off, ips} x eval in {on, ips, None} on an environment with logged action/reward/probability) and one aggregate case (uniform PMF draws over 4 seeds). Inside a single-call case EVERY assignment of named action / stated '
-            'probability / PMF (one-hots, two mixed) to the rows is executed; two-call cases execute all rotations (thorough, without kwargs: all rotations of the first x every assignment of the second call). Every execution '
+            'probability / PMF (one-hots, two mixed, one whose float sum is 0.9999 and for 3 actions one whose float sum is 1-2^-53) to the rows is executed; two-call cases execute all rotations (thorough, without kwargs: all rotations of the first x every assignment of the second call). Every execution '
             'builds a fresh scripted learner and SafeLearner, runs predict then learn, and compares with the reference reading. An '
             'execution is non-trivial when it is inside the property\'s quantifier (not an un-hinted PMF that could also be read as an '
             'action or (action,prob) pair), offers >= 2 actions and its whole predict+learn round trip was compared')
@@ -806,7 +828,7 @@ class C15(Check):
         'actions are compared with == (SafeLearner may hand out float copies of 0/1); the numeric type of the action is not constrained',
         'a bare action answer must be reported with probability None (the learner stated none)',
         'which action a non-degenerate PMF yields is not constrained beyond: offered, non-zero mass, reported with exactly its mass, identical for equal seeds and for batch vs per-row invocation',
-        'the number of predict calls the learner sees is not constrained (SafeLearner probes the layout of square batches with an extra call)',
+        'the number of predict calls a BATCH-CAPABLE learner sees is not constrained (SafeLearner probes the layout of square batches with an extra one-row batch call); a learner that refuses batches must see exactly one un-batched predict per row, in row order, per evaluator call',
         'batched kwargs are compared per row ({k: v[row]}); the container types of the returned batch are not constrained',
         'learn is driven directly with predict\'s result and a reward, as SequentialCB does; in addition a slice (5 scalar action sets, 3 interactions, un-batched and batches of 2+1) runs through the real SequentialCB(record reward/action/probability), where the recorded action / probability / reward and the arguments of learn are compared; a failure there is reported only if SafeLearner driven directly reads the same answers correctly (otherwise the direct case reports it); with learn=\'ips\' (own prediction learned with an estimated reward) action, probability and kwargs of that predict call must arrive in learn, the reward value is left to C06; with learn=\'off\' (logged action learned) only the context is compared; eval=\'ips\' rewards are not compared; dr/dm need vowpalwabbit and are outside',
         'a column-major un-hinted PMF history whose FIRST batch is 1 row x 1 action ([[1]]: identical in row- and column-major reading, also under a one-row probe) is demanded for that first call only',
@@ -859,7 +881,8 @@ class C15(Check):
                 for fmt in FMTS:
                     for kw in range(4 if mode == 'not' or n == 1 else (7 if quick else 8)):
                         for ctx in CTX_KINDS:
-                            if kw >= 4 and ctx == 'none': continue          # rows with a None context share one script entry (one key order)
+                            if kw >= 4 and ctx in ('none', 'absent'): continue          # rows with a None context share one script entry (one key order)
+                            if ctx == 'absent' and (mode == 'not' or kw in (1, 3)): continue    # un-batched it is the same as 'none'
                             for box in boxes:
                                 if box != 'm' and ctx == 'list': continue
                                 for seed in seeds(fmt):
